@@ -141,3 +141,116 @@ func lastLines(s string, n int) string {
 	}
 	return strings.Join(l, " | ")
 }
+
+// c18AgentBinary: the shipped `vipnode agent` with --min-peers N against a pool (played by the
+// harness) that lists no active peers: the agent must ask for exactly N hosts (N > 0), and for
+// none when N is 0 -- the target is what the operator configured, the documented default (3) only
+// when nothing was configured.
+func c18AgentBinary(ctx *Ctx, i int) {
+	bin, cleanup := buildBinary(ctx.Repo)
+	defer cleanup()
+	dir, _ := ioutil.TempDir("", "vharness-agentbin18")
+	defer os.RemoveAll(dir)
+	var mon []string
+	var runs []string
+	for _, tc := range []struct {
+		flag string
+		want int // hosts asked for; 0 = no peer request at all
+	}{{"--min-peers=0", 0}, {"--min-peers=2", 2}, {"", 3}, {"--min-peers=5", 5}} {
+		key := keyFor("agentbin18" + tc.flag)
+		keyFile := fmt.Sprintf("%s/nodekey%d", dir, len(runs))
+		if err := crypto.SaveECDSA(keyFile, key); err != nil {
+			fatal("%v", err)
+		}
+		id := discv5.PubkeyID(&key.PublicKey).String()
+		var mu sync.Mutex
+		asked := []int{}
+		updates := 0
+		upgrader := websocket.Upgrader{CheckOrigin: func(*http.Request) bool { return true }}
+		srv := httptest.NewServer(http.HandlerFunc(func(w http.ResponseWriter, r *http.Request) {
+			conn, err := upgrader.Upgrade(w, r, nil)
+			if err != nil {
+				return
+			}
+			defer conn.Close()
+			for {
+				_, raw, err := conn.ReadMessage()
+				if err != nil {
+					return
+				}
+				var m struct {
+					ID     json.RawMessage   `json:"id"`
+					Method string            `json:"method"`
+					Params []json.RawMessage `json:"params"`
+				}
+				if json.Unmarshal(raw, &m) != nil || m.Method == "" {
+					continue
+				}
+				result := "{}"
+				switch m.Method {
+				case "vipnode_update":
+					mu.Lock()
+					updates++
+					mu.Unlock()
+					result = `{"active_peers":[],"invalid_peers":[]}`
+				case "vipnode_peer":
+					var pr struct {
+						Num int `json:"num"`
+					}
+					if len(m.Params) >= 4 {
+						json.Unmarshal(m.Params[3], &pr)
+					}
+					mu.Lock()
+					asked = append(asked, pr.Num)
+					mu.Unlock()
+					result = `{"peers":[]}`
+				}
+				conn.WriteMessage(websocket.TextMessage, []byte(fmt.Sprintf(`{"jsonrpc":"2.0","id":%s,"result":%s}`, m.ID, result)))
+			}
+		}))
+		args := []string{"agent", "--rpc", "fakenode://" + id, "--nodekey", keyFile}
+		if tc.flag != "" {
+			args = append(args, tc.flag)
+		}
+		args = append(args, "ws"+strings.TrimPrefix(srv.URL, "http")+"/")
+		cmd := exec.Command(bin, args...)
+		var out bytes.Buffer
+		cmd.Stderr, cmd.Stdout = &out, &out
+		if err := cmd.Start(); err != nil {
+			fatal("agent binary: %v", err)
+		}
+		// registration, then the first keep-alive (sent by Start itself), then the peer request if any
+		for t := 0; t < 60; t++ {
+			time.Sleep(50 * time.Millisecond)
+			mu.Lock()
+			done := updates >= 1
+			mu.Unlock()
+			if done {
+				break
+			}
+		}
+		time.Sleep(400 * time.Millisecond)
+		cmd.Process.Kill()
+		cmd.Wait()
+		srv.Close()
+		mu.Lock()
+		got, ups := append([]int{}, asked...), updates
+		mu.Unlock()
+		label := tc.flag
+		if label == "" {
+			label = "(no --min-peers)"
+		}
+		runs = append(runs, fmt.Sprintf("%s: %d keep-alive(s), peer requests %v", label, ups, got))
+		if ups == 0 {
+			mon = append(mon, fmt.Sprintf("c18-agent-binary: vipnode agent %s sent no keep-alive within 3 s: %s", label, lastLines(out.String(), 2)))
+			continue
+		}
+		switch {
+		case tc.want == 0 && len(got) > 0:
+			mon = append(mon, fmt.Sprintf("c18-binary-target: vipnode agent %s: the pool lists 0 active peers and the target is 0, yet the agent asked for %v more hosts", label, got))
+		case tc.want > 0 && (len(got) == 0 || got[0] != tc.want):
+			mon = append(mon, fmt.Sprintf("c18-binary-target: vipnode agent %s: the pool lists 0 active peers: the agent should ask for %d hosts, it asked for %v", label, tc.want, got))
+		}
+	}
+	ctx.Emit(Case{I: i, Kind: "agent-binary-target", Desc: map[string]interface{}{"runs": runs}, Monitor: mon})
+}
